@@ -22,6 +22,7 @@ func init() {
 		},
 		Run: runC29,
 		Controls: []Control{
+			{Name: "drop-all-skipped-for-sources-believed-empty", File: "routingtable/mergedlocrib/mergedlocrib.go", Old: "\tfor h, rc := range rtm.routes {\n\t\trtm._delRoute(h, src, rc.route)\n\t}\n", New: "\tif src == nil {\n\t\treturn\n\t}\n\tfor h, rc := range rtm.routes {\n\t\trtm._delRoute(h, src, rc.route)\n\t}\n", Expect: "source-drop-visits-every-route"},
 			{Name: "source-kept-on-graceful-stop", File: "risclient/risclient.go", Old: "\tdefer r.processDownEvent()\n\n\tfor {\n\t\tif r.stopped() {\n\t\t\treturn nil\n\t\t}\n", New: "\tfor {\n\t\tif r.stopped() {\n\t\t\treturn nil\n\t\t}\n\t\tdefer r.processDownEvent()\n", Expect: "source-dropped-when-stream-ends"},
 			{Name: "remove-source-truncates-behind-the-gap", File: "routingtable/mergedlocrib/routecontainer.go", Old: "\trc.sources[i] = rc.sources[len(rc.sources)-1]\n\trc.sources = rc.sources[:len(rc.sources)-1]\n", New: "\trc.sources = append(rc.sources[:i], rc.sources[len(rc.sources)-1])\n", Expect: "source-removed-is-the-one-found"},
 			{Name: "refactor-remove-source-by-splice", Silent: true, File: "routingtable/mergedlocrib/routecontainer.go", Old: "\trc.sources[i] = rc.sources[len(rc.sources)-1]\n\trc.sources = rc.sources[:len(rc.sources)-1]\n", New: "\trc.sources = append(rc.sources[:i], rc.sources[i+1:]...)\n"},
@@ -67,6 +68,7 @@ func impliesNegative(op token.Token, k int64, truth bool) bool {
 func runC29(c *core.Ctx) {
 	p := c.P
 	sourceDroppedWhenStreamEnds(c)
+	mergedKeyAndDropAll(c)
 	const pkg = "routingtable/mergedlocrib"
 	src := p.Field(pkg, "routeContainer", "sources")
 	add := c.MustFunc(pkg + ".(*routeContainer).addSource")
@@ -368,4 +370,70 @@ func sourceDroppedWhenStreamEnds(c *core.Ctx) {
 			"the service loop of the RIS client can end (stop requested, stream error) without dropping this source's routes from the merged table: routes no upstream source advertises any more stay present")
 	}
 	c.Check(n >= 1, rule, "stream readers found", 0, "no function reading the ObserveRIB stream found")
+}
+
+// mergedKeyAndDropAll:
+//   (a) the key under which the merged table files a route distinguishes everything that makes two advertised routes
+//       different routes — either the whole API message is hashed (proto.Marshal of the route itself), or, when the key
+//       is assembled from parts, no part is a digest that leaves the add-path identifier out (BGPPath.ComputeHash):
+//       two paths of one prefix that differ only in their identifier would share a container, and withdrawing one
+//       removes the route while the other is still advertised;
+//   (b) a source that drops visits every container: DropAllBySrc has no return ahead of its walk over the route map (a
+//       per-source counter that says "holds nothing" can be wrong after repeated withdrawals).
+func mergedKeyAndDropAll(c *core.Ctx) {
+	p := c.P
+	const pkg = "routingtable/mergedlocrib"
+	const ruleA, ruleB = "route-key-distinguishes-advertised-routes", "source-drop-visits-every-route"
+	if f := c.MustFunc(pkg + ".hashRoute"); f != nil {
+		c.Analysed(f)
+		par := core.ParamObj(f, 0)
+		whole, lossy := false, ""
+		for _, g := range p.ReachableFns(f) {
+			if g.Decl.Body == nil || g.Pkg != f.Pkg {
+				continue
+			}
+			ast.Inspect(g.Decl.Body, func(nd ast.Node) bool {
+				call, ok := nd.(*ast.CallExpr)
+				if !ok {
+					return true
+				}
+				cal := core.Callee(g.Pkg, call)
+				if cal == nil {
+					return true
+				}
+				if cal.Name() == "Marshal" && g == f && len(call.Args) == 1 && core.ObjOf(g.Pkg, call.Args[0]) == par {
+					whole = true
+				}
+				if cal.Name() == "ComputeHash" && core.RecvName(cal) == "BGPPath" {
+					lossy = g.Name()
+				}
+				return true
+			})
+		}
+		c.Check(whole || lossy == "", ruleA, f.Name()+" hashes the whole route or identifier-preserving parts", f.Decl.Pos(),
+			"the container key is assembled from parts and uses BGPPath.ComputeHash (in "+lossy+"), which leaves the add-path identifier out: two advertised paths of one prefix that differ only in the identifier share one container — the second is never installed and the withdrawal of the first removes the route while the second is still advertised")
+	}
+	if f := c.MustFunc(pkg + ".(*MergedLocRIB).DropAllBySrc"); f != nil {
+		c.Analysed(f)
+		routes := p.Field(pkg, "MergedLocRIB", "routes")
+		var loop *ast.RangeStmt
+		ast.Inspect(f.Decl.Body, func(nd ast.Node) bool {
+			if rs, ok := nd.(*ast.RangeStmt); ok && loop == nil && core.FieldOf(f.Pkg, rs.X) == routes && routes != nil {
+				loop = rs
+			}
+			return true
+		})
+		c.Check(loop != nil, ruleB, f.Name()+" walks the route map", f.Decl.Pos(), "DropAllBySrc has no loop over MergedLocRIB.routes")
+		if loop != nil {
+			early := token.NoPos
+			ast.Inspect(f.Decl.Body, func(nd ast.Node) bool {
+				if r, ok := nd.(*ast.ReturnStmt); ok && r.Pos() < loop.Pos() {
+					early = r.Pos()
+				}
+				return true
+			})
+			c.Check(early == token.NoPos && len(loopExits(loop.Body)) == 0, ruleB, f.Name()+" reaches and completes the walk on every path", early,
+				"DropAllBySrc can return before (or break out of) its walk over the route map: routes whose only advertiser was the dropped source stay in the merged table")
+		}
+	}
 }
